@@ -92,17 +92,19 @@ Definition pooled_in (p : nat) (B : block) : nat :=
   if balive B && is_pooled (btag B) && Nat.eqb (bpool B) p then 1 else 0.
 Definition owns (p : nat) (H : handle) : nat := if halive H && Nat.eqb (hpool H) p then 1 else 0.
 
-Definition blk_inv (st : state) (B : block) : Prop :=
+(* [sk = true]: the invariant under hypothesis H (no raw single-object block exists); [sk = false]: the weak invariant that
+   survives H-violating histories as long as no misrouting has happened (round 9) *)
+Definition blk_inv (sk : bool) (st : state) (B : block) : Prop :=
   bpool B < npools st /\
   match btag B with
   | Pooled q => q = pparams (pools st (bpool B)) /\ q = get_params (bvt B) /\ bn B = 1%Z
-  | RawMem s => s = (bn B * vsize (bvt B))%Z /\ bn B <> 1%Z
+  | RawMem s => s = (bn B * vsize (bvt B))%Z /\ (sk = true -> bn B <> 1%Z)
   end.
 
-Record inv (st : state) : Prop := {
+Record inv_gen (sk : bool) (st : state) : Prop := {
   (* every live pooled block carries the CURRENT parameters of its pool and was a single-object request of
      a value type with exactly those parameters; every live raw block was a request with n <> 1 *)
-  i_blk : forall b, b < nblocks st -> balive (blocks st b) = true -> blk_inv st (blocks st b);
+  i_blk : forall b, b < nblocks st -> balive (blocks st b) = true -> blk_inv sk st (blocks st b);
   (* GetAllocateCount() = number of live pooled blocks of the pool *)
   i_cnt : forall p, p < npools st -> pcount (pools st p) = sumn (nblocks st) (fun b => pooled_in p (blocks st b));
   (* use_count = number of living allocator objects that share the pool *)
@@ -111,29 +113,32 @@ Record inv (st : state) : Prop := {
   i_hnd : forall h, h < nhandles st -> halive (handles st h) = true -> hpool (handles st h) < npools st
 }.
 
-Lemma inv_init : inv init.
+Notation inv := (inv_gen true).
+
+Lemma inv_init {sk} : inv_gen sk init.
 Proof. constructor; simpl; intros; try lia; discriminate. Qed.
 
 Definition balanced (st st' : state) (ob : obs) : Prop :=
   outstanding st' + o_frees ob = outstanding st + o_allocs ob.
 
-Definition step_good (st : state) (o : op) : Prop :=
-  exists st' ob, step st o = Ok (st', ob) /\ inv st' /\ routed_ok ob = true /\ balanced st st' ob.
+Definition step_good_k (sk : bool) (st : state) (o : op) : Prop :=
+  exists st' ob, step st o = Ok (st', ob) /\ inv_gen sk st' /\ routed_ok ob = true /\ balanced st st' ob.
+Notation step_good := (step_good_k true).
 
 Lemma handle_ok_spec st h : handle_ok st h = true -> h < nhandles st /\ halive (handles st h) = true.
 Proof. unfold handle_ok. rewrite andb_true_iff, Nat.ltb_lt. auto. Qed.
 
 (* a living handle keeps its pool alive with at least one reference *)
-Lemma handle_pool_alive st h : inv st -> h < nhandles st -> halive (handles st h) = true ->
+Lemma handle_pool_alive {sk} st h : inv_gen sk st -> h < nhandles st -> halive (handles st h) = true ->
   hpool (handles st h) < npools st /\ 1 <= prefs (pools st (hpool (handles st h))) /\
   palive (pools st (hpool (handles st h))) = true.
 Proof.
-  intros I Hh Ha. pose proof (i_hnd _ I h Hh Ha) as Hp.
+  intros I Hh Ha. pose proof (i_hnd _ _ I h Hh Ha) as Hp.
   assert (1 <= prefs (pools st (hpool (handles st h)))) as Hr.
-  { rewrite (i_refs _ I _ Hp).
+  { rewrite (i_refs _ _ I _ Hp).
     pose proof (sumn_ge (nhandles st) (fun k => owns (hpool (handles st h)) (handles st k)) h Hh) as G.
     simpl in G. unfold owns at 1 in G. rewrite Ha, Nat.eqb_refl in G. simpl in G. exact G. }
-  repeat split; auto. rewrite (i_alive _ I _ Hp).
+  repeat split; auto. rewrite (i_alive _ _ I _ Hp).
   destruct (Nat.eqb_spec (prefs (pools st (hpool (handles st h)))) 0); [lia | reflexivity].
 Qed.
 
@@ -156,7 +161,7 @@ Proof.
 Qed.
 Lemma out_set_cached st p c : outstanding (set_cached st p c) = outstanding st.
 Proof. reflexivity. Qed.
-Lemma inv_set_cached st p c : inv st -> inv (set_cached st p c).
+Lemma inv_set_cached {sk} st p c : inv_gen sk st -> inv_gen sk (set_cached st p c).
 Proof. intros [A B C D E]. constructor; assumption. Qed.
 Lemma out_push_block st B : outstanding (push_block st B) = outstanding st + raw_out B.
 Proof.
@@ -175,39 +180,39 @@ Ltac proj := cbn [pools npools handles nhandles blocks nblocks cached
                   pparams pcount prefs pheld palive balive bpool bvt bn btag halive hpool hvt
                   o_dest o_origin o_pool o_allocs o_frees o_reparam] in *.
 
-Lemma blk_inv_frame st st' B : blk_inv st B -> npools st <= npools st' ->
-  pparams (pools st' (bpool B)) = pparams (pools st (bpool B)) -> blk_inv st' B.
+Lemma blk_inv_frame {sk} st st' B : blk_inv sk st B -> npools st <= npools st' ->
+  pparams (pools st' (bpool B)) = pparams (pools st (bpool B)) -> blk_inv sk st' B.
 Proof.
   unfold blk_inv. intros [H1 H2] Hle Hp. split; [lia|]. destruct (btag B); [rewrite Hp|]; exact H2.
 Qed.
 
 (* a fresh pool (explicit constructor / select_on_container_copy_construction) *)
-Lemma fresh_pool_inv st vt : inv st ->
-  inv (push_handle (push_pool st (new_pool vt)) (mkHandle true (npools st) vt)).
+Lemma fresh_pool_inv {sk} st vt : inv_gen sk st ->
+  inv_gen sk (push_handle (push_pool st (new_pool vt)) (mkHandle true (npools st) vt)).
 Proof.
   intros I. constructor; unfold push_handle, push_pool; proj.
-  - intros b Hb Ha. apply (blk_inv_frame st); [apply (i_blk _ I b Hb Ha) | proj; lia |].
-    proj. destruct (i_blk _ I b Hb Ha) as [Hlt _]. rewrite updn_other by lia. reflexivity.
+  - intros b Hb Ha. apply (blk_inv_frame st); [apply (i_blk _ _ I b Hb Ha) | proj; lia |].
+    proj. destruct (i_blk _ _ I b Hb Ha) as [Hlt _]. rewrite updn_other by lia. reflexivity.
   - intros p Hp. destruct (Nat.eq_dec p (npools st)) as [->|Hne].
     + rewrite updn_same. simpl. symmetry. apply sumn_all_zero. intros b Hb. unfold pooled_in.
       destruct (balive (blocks st b)) eqn:Ea; [|reflexivity].
-      destruct (i_blk _ I b Hb Ea) as [Hlt _].
+      destruct (i_blk _ _ I b Hb Ea) as [Hlt _].
       destruct (Nat.eqb_spec (bpool (blocks st b)) (npools st)); [lia|]. rewrite andb_false_r. reflexivity.
-    + rewrite updn_other by lia. apply (i_cnt _ I). lia.
+    + rewrite updn_other by lia. apply (i_cnt _ _ I). lia.
   - intros p Hp. rewrite (sumn_push (owns p) (handles st) (nhandles st)).
     destruct (Nat.eq_dec p (npools st)) as [->|Hne].
     + rewrite updn_same. unfold owns at 2. proj. rewrite Nat.eqb_refl. simpl.
       rewrite sumn_all_zero; [reflexivity|]. intros h Hh. unfold owns.
       destruct (halive (handles st h)) eqn:Ea; [|reflexivity].
-      pose proof (i_hnd _ I h Hh Ea). destruct (Nat.eqb_spec (hpool (handles st h)) (npools st)); [lia|reflexivity].
+      pose proof (i_hnd _ _ I h Hh Ea). destruct (Nat.eqb_spec (hpool (handles st h)) (npools st)); [lia|reflexivity].
     + rewrite updn_other by lia. unfold owns at 2. proj.
-      destruct (Nat.eqb_spec (npools st) p); [lia|]. simpl. rewrite Nat.add_0_r. apply (i_refs _ I). lia.
+      destruct (Nat.eqb_spec (npools st) p); [lia|]. simpl. rewrite Nat.add_0_r. apply (i_refs _ _ I). lia.
   - intros p Hp. destruct (Nat.eq_dec p (npools st)) as [->|Hne].
     + rewrite updn_same. reflexivity.
-    + rewrite updn_other by lia. apply (i_alive _ I). lia.
+    + rewrite updn_other by lia. apply (i_alive _ _ I). lia.
   - intros h Hh Ha. destruct (Nat.eq_dec h (nhandles st)) as [->|Hne].
     + rewrite updn_same. proj. lia.
-    + rewrite updn_other in * by lia. pose proof (i_hnd _ I h ltac:(lia) Ha). lia.
+    + rewrite updn_other in * by lia. pose proof (i_hnd _ _ I h ltac:(lia) Ha). lia.
 Qed.
 
 Lemma fresh_pool_balanced st vt ob : o_allocs ob = 1 -> o_frees ob = 0 ->
@@ -216,12 +221,12 @@ Proof.
   intros Ha Hf. unfold balanced. rewrite out_push_handle, out_push_pool, Ha, Hf. unfold PoolAlloc.new_pool, pool_out; proj. lia.
 Qed.
 
-Lemma step_new st vt : inv st -> step_good st (OpNew vt).
+Lemma step_new {sk} st vt : inv_gen sk st -> step_good_k sk st (OpNew vt).
 Proof.
   intros I. eexists _, _. split; [reflexivity|]. split; [apply fresh_pool_inv; exact I|].
   split; [reflexivity | apply fresh_pool_balanced; reflexivity].
 Qed.
-Lemma step_socc st h : inv st -> step_good st (OpSocc h).
+Lemma step_socc {sk} st h : inv_gen sk st -> step_good_k sk st (OpSocc h).
 Proof.
   intros I. eexists _, _. split; [reflexivity|]. split; [apply fresh_pool_inv; exact I|].
   split; [reflexivity | apply fresh_pool_balanced; reflexivity].
@@ -245,39 +250,39 @@ Proof.
 Qed.
 
 (* copy constructor / rebinding conversion: one more owner of the same pool *)
-Lemma share_inv st h vt : inv st -> h < nhandles st -> halive (handles st h) = true ->
+Lemma share_inv {sk} st h vt : inv_gen sk st -> h < nhandles st -> halive (handles st h) = true ->
   let p := hpool (handles st h) in
   let st' := push_handle (acquire st p) (mkHandle true p vt) in
-  inv st' /\ outstanding st' = outstanding st.
+  inv_gen sk st' /\ outstanding st' = outstanding st.
 Proof.
   intros I Hh Ha p st'. destruct (handle_pool_alive st h I Hh Ha) as [Hp [Hr Hal]]. fold p in Hp, Hr, Hal.
   split.
   - constructor; unfold st', push_handle, acquire, set_pool; proj.
-    + intros b Hb Hba. apply (blk_inv_frame st); [apply (i_blk _ I b Hb Hba) | proj; lia |]. proj.
+    + intros b Hb Hba. apply (blk_inv_frame st); [apply (i_blk _ _ I b Hb Hba) | proj; lia |]. proj.
       unfold updn. destruct (Nat.eqb_spec (bpool (blocks st b)) p) as [->|]; reflexivity.
-    + intros q Hq. unfold updn at 1. destruct (Nat.eqb_spec q p) as [->|]; proj; apply (i_cnt _ I); auto.
+    + intros q Hq. unfold updn at 1. destruct (Nat.eqb_spec q p) as [->|]; proj; apply (i_cnt _ _ I); auto.
     + intros q Hq. rewrite (sumn_push (owns q) (handles st) (nhandles st)). unfold owns at 2; proj.
       unfold updn. destruct (Nat.eqb_spec q p) as [->|Hne]; proj.
-      * rewrite Nat.eqb_refl. simpl. rewrite (i_refs _ I p Hp). lia.
-      * destruct (Nat.eqb_spec p q); [lia|]. simpl. rewrite (i_refs _ I q Hq). lia.
-    + intros q Hq. unfold updn. destruct (Nat.eqb_spec q p) as [->|Hne]; proj; [exact Hal | apply (i_alive _ I); auto].
+      * rewrite Nat.eqb_refl. simpl. rewrite (i_refs _ _ I p Hp). lia.
+      * destruct (Nat.eqb_spec p q); [lia|]. simpl. rewrite (i_refs _ _ I q Hq). lia.
+    + intros q Hq. unfold updn. destruct (Nat.eqb_spec q p) as [->|Hne]; proj; [exact Hal | apply (i_alive _ _ I); auto].
     + intros k Hk Hka. destruct (Nat.eq_dec k (nhandles st)) as [->|Hne].
       * rewrite updn_same. proj. exact Hp.
-      * rewrite updn_other in * by lia. apply (i_hnd _ I k); [lia | exact Hka].
+      * rewrite updn_other in * by lia. apply (i_hnd _ _ I k); [lia | exact Hka].
   - unfold st'. rewrite out_push_handle. unfold acquire.
     pose proof (out_set_pool st p (mkPool (pparams (pools st p)) (pcount (pools st p)) (S (prefs (pools st p)))
                                     (pheld (pools st p)) (palive (pools st p))) Hp) as E.
     unfold pool_out in E; proj. lia.
 Qed.
 
-Lemma step_copy st h : inv st -> proto_ok st (OpCopy h) = true -> step_good st (OpCopy h).
+Lemma step_copy {sk} st h : inv_gen sk st -> proto_ok st (OpCopy h) = true -> step_good_k sk st (OpCopy h).
 Proof.
   intros I Hp. simpl in Hp. apply handle_ok_spec in Hp as [Hh Ha].
   destruct (share_inv st h (hvt (handles st h)) I Hh Ha) as [I' O'].
   eexists _, _. split; [reflexivity|]. split; [exact I'|]. split; [reflexivity|].
   unfold balanced; proj. rewrite O'. lia.
 Qed.
-Lemma step_rebind st h vt : inv st -> proto_ok st (OpRebind h vt) = true -> step_good st (OpRebind h vt).
+Lemma step_rebind {sk} st h vt : inv_gen sk st -> proto_ok st (OpRebind h vt) = true -> step_good_k sk st (OpRebind h vt).
 Proof.
   intros I Hp. simpl in Hp. apply handle_ok_spec in Hp as [Hh Ha].
   destruct (share_inv st h vt I Hh Ha) as [I' O'].
@@ -285,15 +290,15 @@ Proof.
   unfold balanced; proj. rewrite O'. lia.
 Qed.
 
-Lemma no_blocks_count st p : inv st -> p < npools st -> no_blocks_of st p = true -> pcount (pools st p) = 0.
+Lemma no_blocks_count {sk} st p : inv_gen sk st -> p < npools st -> no_blocks_of st p = true -> pcount (pools st p) = 0.
 Proof.
-  intros I Hp Hn. rewrite (i_cnt _ I p Hp). apply sumn_all_zero. intros b Hb.
+  intros I Hp Hn. rewrite (i_cnt _ _ I p Hp). apply sumn_all_zero. intros b Hb.
   unfold no_blocks_of in Hn. rewrite allb_spec in Hn. specialize (Hn b Hb). unfold pooled_in.
   destruct (balive (blocks st b)); [|reflexivity]. destruct (Nat.eqb (bpool (blocks st b)) p); [discriminate|].
   rewrite andb_false_r. reflexivity.
 Qed.
 
-Lemma step_destroy st h : inv st -> proto_ok st (OpDestroy h) = true -> step_good st (OpDestroy h).
+Lemma step_destroy {sk} st h : inv_gen sk st -> proto_ok st (OpDestroy h) = true -> step_good_k sk st (OpDestroy h).
 Proof.
   intros I Hp. simpl in Hp. apply andb_true_iff in Hp as [Hok Hlast]. apply handle_ok_spec in Hok as [Hh Ha].
   destruct (handle_pool_alive st h I Hh Ha) as [Hlt [Hr Hal]].
@@ -303,25 +308,25 @@ Proof.
   destruct (release_spec st p Hal Hr Hc) as [P' [fr [Er [Hpp [Hpc [Hpr [Hpa [Hout _]]]]]]]].
   unfold step_good, PoolAlloc.step. fold p. rewrite Er. eexists _, _. split; [reflexivity|]. split; [|split; [reflexivity|]].
   - constructor; unfold set_handle, set_pool; proj.
-    + intros b Hb Hba. apply (blk_inv_frame st); [apply (i_blk _ I b Hb Hba) | proj; lia |]. proj.
+    + intros b Hb Hba. apply (blk_inv_frame st); [apply (i_blk _ _ I b Hb Hba) | proj; lia |]. proj.
       unfold updn. destruct (Nat.eqb_spec (bpool (blocks st b)) p) as [->|]; auto.
-    + intros q Hq. unfold updn at 1. destruct (Nat.eqb_spec q p) as [->|]; [rewrite Hpc|]; apply (i_cnt _ I); auto.
+    + intros q Hq. unfold updn at 1. destruct (Nat.eqb_spec q p) as [->|]; [rewrite Hpc|]; apply (i_cnt _ _ I); auto.
     + intros q Hq.
       pose proof (sumn_set (owns q) (handles st) (nhandles st) h (mkHandle false p (hvt (handles st h))) Hh) as E.
       assert (Eo : owns q (handles st h) = if Nat.eqb p q then 1 else 0) by (unfold owns; rewrite Ha; reflexivity).
       assert (En : owns q (mkHandle false p (hvt (handles st h))) = 0) by reflexivity.
       rewrite Eo, En in E. clear Eo En.
       unfold updn at 1. destruct (Nat.eqb_spec q p) as [->|Hne].
-      * rewrite Nat.eqb_refl in E. rewrite Hpr, (i_refs _ I p Hlt). lia.
-      * destruct (Nat.eqb_spec p q); [lia|]. rewrite (i_refs _ I q Hq). lia.
-    + intros q Hq. unfold updn. destruct (Nat.eqb_spec q p) as [->|]; [rewrite Hpa, Hpr; reflexivity | apply (i_alive _ I); auto].
+      * rewrite Nat.eqb_refl in E. rewrite Hpr, (i_refs _ _ I p Hlt). lia.
+      * destruct (Nat.eqb_spec p q); [lia|]. rewrite (i_refs _ _ I q Hq). lia.
+    + intros q Hq. unfold updn. destruct (Nat.eqb_spec q p) as [->|]; [rewrite Hpa, Hpr; reflexivity | apply (i_alive _ _ I); auto].
     + intros k Hk Hka. destruct (Nat.eq_dec k h) as [->|Hne].
       * rewrite updn_same in Hka. discriminate.
-      * rewrite updn_other in * by lia. apply (i_hnd _ I k Hk Hka).
+      * rewrite updn_other in * by lia. apply (i_hnd _ _ I k Hk Hka).
   - unfold balanced; proj. rewrite out_set_handle. pose proof (out_set_pool st p P' Hlt). lia.
 Qed.
 
-Lemma step_assign st hd hs : inv st -> proto_ok st (OpAssign hd hs) = true -> step_good st (OpAssign hd hs).
+Lemma step_assign {sk} st hd hs : inv_gen sk st -> proto_ok st (OpAssign hd hs) = true -> step_good_k sk st (OpAssign hd hs).
 Proof.
   intros I Hp. simpl in Hp. repeat rewrite andb_true_iff in Hp. destruct Hp as [[[Hokd Hoks] _] Hlast].
   apply handle_ok_spec in Hokd as [Hhd Had]. apply handle_ok_spec in Hoks as [Hhs Has].
@@ -345,20 +350,20 @@ Proof.
       change (blocks sa) with (blocks st); change (nblocks sa) with (nblocks st);
       change (handles sa) with (handles st); change (nhandles sa) with (nhandles st);
       change (npools sa) with (npools st).
-    + intros b Hb Hba. apply (blk_inv_frame st); [apply (i_blk _ I b Hb Hba) | proj; change (npools sa) with (npools st); lia |]. proj.
+    + intros b Hb Hba. apply (blk_inv_frame st); [apply (i_blk _ _ I b Hb Hba) | proj; change (npools sa) with (npools st); lia |]. proj.
       unfold updn. destruct (Nat.eqb_spec (bpool (blocks st b)) pd) as [E|]; proj.
       * rewrite Hpp, Hsa, E. destruct (Nat.eqb_spec pd ps) as [E2|]; proj; [rewrite E2|]; reflexivity.
       * rewrite Hsa. destruct (Nat.eqb_spec (bpool (blocks st b)) ps) as [->|]; reflexivity.
     + intros q Hq. change (nblocks sa) with (nblocks st). change (blocks sa) with (blocks st).
       unfold updn at 1. destruct (Nat.eqb_spec q pd) as [->|].
-      * rewrite Hpc, Hsa. destruct (Nat.eqb_spec pd ps) as [E|]; proj; [rewrite <- E|]; apply (i_cnt _ I); auto.
-      * rewrite Hsa. destruct (Nat.eqb_spec q ps) as [->|]; proj; apply (i_cnt _ I); auto.
+      * rewrite Hpc, Hsa. destruct (Nat.eqb_spec pd ps) as [E|]; proj; [rewrite <- E|]; apply (i_cnt _ _ I); auto.
+      * rewrite Hsa. destruct (Nat.eqb_spec q ps) as [->|]; proj; apply (i_cnt _ _ I); auto.
     + intros q Hq. change (nhandles sa) with (nhandles st). change (handles sa) with (handles st).
       pose proof (sumn_set (owns q) (handles st) (nhandles st) hd (mkHandle true ps (hvt (handles st hd))) Hhd) as E.
       assert (Eo : owns q (handles st hd) = if Nat.eqb pd q then 1 else 0) by (unfold owns; rewrite Had; reflexivity).
       assert (En : owns q (mkHandle true ps (hvt (handles st hd))) = if Nat.eqb ps q then 1 else 0) by reflexivity.
       rewrite Eo, En in E. clear Eo En.
-      pose proof (i_refs _ I q Hq) as Rq.
+      pose proof (i_refs _ _ I q Hq) as Rq.
       unfold updn at 1. destruct (Nat.eqb_spec q pd) as [->|Hned].
       * rewrite Nat.eqb_refl in E. rewrite Hpr, Hsa.
         destruct (Nat.eqb_spec pd ps) as [E2|Hne]; proj.
@@ -370,12 +375,12 @@ Proof.
         -- destruct (Nat.eqb_spec ps q); [lia|]. lia.
     + intros q Hq. unfold updn. destruct (Nat.eqb_spec q pd) as [->|].
       * rewrite Hpa, Hpr. reflexivity.
-      * rewrite Hsa. destruct (Nat.eqb_spec q ps) as [->|]; proj; [exact Hals | apply (i_alive _ I); auto].
+      * rewrite Hsa. destruct (Nat.eqb_spec q ps) as [->|]; proj; [exact Hals | apply (i_alive _ _ I); auto].
     + intros k Hk Hka. change (handles sa) with (handles st) in *. change (nhandles sa) with (nhandles st) in *.
       change (npools sa) with (npools st).
       destruct (Nat.eq_dec k hd) as [->|Hne].
       * rewrite updn_same. proj. exact Hlts.
-      * rewrite updn_other in * by lia. apply (i_hnd _ I k Hk Hka).
+      * rewrite updn_other in * by lia. apply (i_hnd _ _ I k Hk Hka).
   - unfold balanced; proj. rewrite out_set_handle.
     pose proof (out_set_pool sa pd P' Hltd) as E1.
     assert (outstanding sa = outstanding st) as E2.
@@ -384,8 +389,8 @@ Proof.
     lia.
 Qed.
 
-Lemma blk_inv_frame' st st' B : blk_inv st B -> npools st <= npools st' ->
-  (is_pooled (btag B) = true -> pparams (pools st' (bpool B)) = pparams (pools st (bpool B))) -> blk_inv st' B.
+Lemma blk_inv_frame' {sk} st st' B : blk_inv sk st B -> npools st <= npools st' ->
+  (is_pooled (btag B) = true -> pparams (pools st' (bpool B)) = pparams (pools st (bpool B))) -> blk_inv sk st' B.
 Proof.
   unfold blk_inv. intros [H1 H2] Hle Hp. split; [lia|]. destruct (btag B); [rewrite Hp by reflexivity|]; exact H2.
 Qed.
@@ -402,30 +407,30 @@ Proof.
   rewrite Ha, Hp, Nat.eqb_refl, Ht in H. simpl in H. apply params_eqb_eq. exact H.
 Qed.
 
-Lemma step_alloc st h n grow : inv st -> proto_ok st (OpAlloc h n grow) = true -> h_ok st (OpAlloc h n grow) = true ->
-  step_good st (OpAlloc h n grow).
+Lemma step_alloc {sk} st h n grow : inv_gen sk st -> proto_ok st (OpAlloc h n grow) = true -> (sk = true -> h_ok st (OpAlloc h n grow) = true) ->
+  step_good_k sk st (OpAlloc h n grow).
 Proof.
   intros I Hp HH. simpl in Hp. apply andb_true_iff in Hp as [Hok Hn]. apply handle_ok_spec in Hok as [Hh Ha].
   destruct (handle_pool_alive st h I Hh Ha) as [Hlt [Hr Hal]].
   unfold step_good, PoolAlloc.step. cbv zeta.
   set (p := hpool (handles st h)) in *. set (vt := hvt (handles st h)) in *. set (P := pools st p) in *.
   (* raw branch, shared by n <> 1 (and, impossible under H, by n = 1 on a busy pool of other parameters) *)
-  assert (Hraw : n <> 1%Z -> exists st' ob,
+  assert (Hraw : (sk = true -> n <> 1%Z) -> exists st' ob,
      Ok (push_block st (mkBlock true p vt n (RawMem (n * vsize vt))),
-         mkObs (Some (RawMem (n * vsize vt))) None p 1 0 false) = Ok (st', ob) /\ inv st' /\
+         mkObs (Some (RawMem (n * vsize vt))) None p 1 0 false) = Ok (st', ob) /\ inv_gen sk st' /\
      routed_ok ob = true /\ balanced st st' ob).
   { intros Hn1. eexists _, _. split; [reflexivity|]. split; [|split; [reflexivity|]].
     - constructor; unfold push_block; proj.
       + intros b Hb Hba. destruct (Nat.eq_dec b (nblocks st)) as [->|Hne].
         * rewrite updn_same. unfold blk_inv; proj. auto.
-        * rewrite updn_other in * by lia. apply (blk_inv_frame st); [apply (i_blk _ I b); [lia|exact Hba] | proj; lia | reflexivity].
+        * rewrite updn_other in * by lia. apply (blk_inv_frame st); [apply (i_blk _ _ I b); [lia|exact Hba] | proj; lia | reflexivity].
       + intros q Hq. rewrite (sumn_push (pooled_in q) (blocks st) (nblocks st)).
-        unfold pooled_in at 2; proj. simpl. rewrite Nat.add_0_r. apply (i_cnt _ I q Hq).
-      + apply (i_refs _ I).
-      + apply (i_alive _ I).
-      + apply (i_hnd _ I).
+        unfold pooled_in at 2; proj. simpl. rewrite Nat.add_0_r. apply (i_cnt _ _ I q Hq).
+      + apply (i_refs _ _ I).
+      + apply (i_alive _ _ I).
+      + apply (i_hnd _ _ I).
     - unfold balanced; proj. rewrite out_push_block. unfold raw_out; proj. simpl. lia. }
-  destruct (Z.eqb_spec n 1) as [->|Hn1]; [|apply Hraw; exact Hn1].
+  destruct (Z.eqb_spec n 1) as [->|Hn1]; [|apply Hraw; intros _; exact Hn1].
   destruct (params_eqb (get_params vt) (pparams P)) eqn:Eeq.
   - (* parameters match: plain pool allocation (from the cache or from a buffer) *)
     apply params_eqb_eq in Eeq. cbn [negb andb].
@@ -435,15 +440,15 @@ Proof.
     + constructor; unfold set_cached, push_block, set_pool; proj.
       * intros b Hb Hba. destruct (Nat.eq_dec b (nblocks st)) as [->|Hne].
         -- rewrite updn_same. unfold blk_inv; proj. rewrite updn_same; proj. auto.
-        -- rewrite updn_other in * by lia. apply (blk_inv_frame st); [apply (i_blk _ I b); [lia|exact Hba] | proj; lia |].
+        -- rewrite updn_other in * by lia. apply (blk_inv_frame st); [apply (i_blk _ _ I b); [lia|exact Hba] | proj; lia |].
            proj. unfold updn. destruct (Nat.eqb_spec (bpool (blocks st b)) p) as [->|]; reflexivity.
       * intros q Hq. rewrite (sumn_push (pooled_in q) (blocks st) (nblocks st)).
         unfold pooled_in at 2; proj. simpl. unfold updn. destruct (Nat.eqb_spec q p) as [->|Hne]; proj.
-        -- rewrite Nat.eqb_refl. pose proof (i_cnt _ I p Hlt) as C. fold P in C. lia.
-        -- destruct (Nat.eqb_spec p q); [lia|]. rewrite (i_cnt _ I q Hq). lia.
-      * intros q Hq. unfold updn. destruct (Nat.eqb_spec q p) as [->|]; proj; apply (i_refs _ I); auto.
-      * intros q Hq. unfold updn. destruct (Nat.eqb_spec q p) as [->|]; proj; apply (i_alive _ I); auto.
-      * apply (i_hnd _ I).
+        -- rewrite Nat.eqb_refl. pose proof (i_cnt _ _ I p Hlt) as C. fold P in C. lia.
+        -- destruct (Nat.eqb_spec p q); [lia|]. rewrite (i_cnt _ _ I q Hq). lia.
+      * intros q Hq. unfold updn. destruct (Nat.eqb_spec q p) as [->|]; proj; apply (i_refs _ _ I); auto.
+      * intros q Hq. unfold updn. destruct (Nat.eqb_spec q p) as [->|]; proj; apply (i_alive _ _ I); auto.
+      * apply (i_hnd _ _ I).
     + unfold balanced; proj. rewrite out_set_cached, out_push_block. unfold raw_out; proj. simpl.
       pose proof (out_set_pool st p (mkPool (pparams P) (S (pcount P)) (prefs P) (pheld P + g) (palive P)) Hlt) as E.
       unfold pool_out in E; proj. fold P in E. rewrite Hal in E |- *. lia.
@@ -451,7 +456,7 @@ Proof.
     + (* idle pool of other parameters: re-parameterised (line 119) *)
       assert (Hnone : forall b, b < nblocks st -> balive (blocks st b) = true ->
                 is_pooled (btag (blocks st b)) = true -> bpool (blocks st b) <> p).
-      { intros b Hb Hba Hbp Hbq. pose proof (i_cnt _ I p Hlt) as C. fold P in C. rewrite Ec in C.
+      { intros b Hb Hba Hbp Hbq. pose proof (i_cnt _ _ I p Hlt) as C. fold P in C. rewrite Ec in C.
         symmetry in C. pose proof (sumn_zero _ _ C b Hb) as Z0. cbv beta in Z0.
         rewrite (pooled_in_1 p _ Hba Hbp Hbq) in Z0. discriminate. }
       eexists _, _. split; [reflexivity|]. split; [|split; [reflexivity|]].
@@ -459,39 +464,47 @@ Proof.
         -- intros b Hb Hba. destruct (Nat.eq_dec b (nblocks st)) as [->|Hne].
            ++ rewrite updn_same. unfold blk_inv; proj. rewrite updn_same; proj. auto.
            ++ rewrite updn_other in * by lia. assert (b < nblocks st) as Hb' by lia.
-              apply (blk_inv_frame' st); [apply (i_blk _ I b Hb' Hba) | proj; lia |].
+              apply (blk_inv_frame' st); [apply (i_blk _ _ I b Hb' Hba) | proj; lia |].
               intros Hbp. proj. rewrite updn_other; [reflexivity | apply (Hnone b Hb' Hba Hbp)].
         -- intros q Hq. rewrite (sumn_push (pooled_in q) (blocks st) (nblocks st)).
            unfold pooled_in at 2; proj. simpl. unfold updn. destruct (Nat.eqb_spec q p) as [->|Hne]; proj.
-           ++ rewrite Nat.eqb_refl. pose proof (i_cnt _ I p Hlt) as C. fold P in C. lia.
-           ++ destruct (Nat.eqb_spec p q); [lia|]. rewrite (i_cnt _ I q Hq). lia.
-        -- intros q Hq. unfold updn. destruct (Nat.eqb_spec q p) as [->|]; proj; apply (i_refs _ I); auto.
-        -- intros q Hq. unfold updn. destruct (Nat.eqb_spec q p) as [->|]; proj; apply (i_alive _ I); auto.
-        -- apply (i_hnd _ I).
+           ++ rewrite Nat.eqb_refl. pose proof (i_cnt _ _ I p Hlt) as C. fold P in C. lia.
+           ++ destruct (Nat.eqb_spec p q); [lia|]. rewrite (i_cnt _ _ I q Hq). lia.
+        -- intros q Hq. unfold updn. destruct (Nat.eqb_spec q p) as [->|]; proj; apply (i_refs _ _ I); auto.
+        -- intros q Hq. unfold updn. destruct (Nat.eqb_spec q p) as [->|]; proj; apply (i_alive _ _ I); auto.
+        -- apply (i_hnd _ _ I).
       * unfold balanced; proj. rewrite out_set_cached, out_push_block. unfold raw_out; proj. simpl.
         pose proof (out_set_pool st p (mkPool (get_params vt) 1 (prefs P) grow (palive P)) Hlt) as E.
         unfold pool_out in E; proj. fold P in E. rewrite Hal in E |- *. lia.
-    + (* busy pool of other parameters: excluded by H *)
-      exfalso. pose proof (i_cnt _ I p Hlt) as C. fold P in C. rewrite C in Ec.
+    + (* busy pool of other parameters: excluded by H; without H (sk = false) a raw single-object block comes into existence *)
+      destruct sk; [|apply Hraw; discriminate]. specialize (HH eq_refl).
+      exfalso. pose proof (i_cnt _ _ I p Hlt) as C. fold P in C. rewrite C in Ec.
       destruct (sumn_pos_ex _ _ Ec) as [b [Hb Hne]]. cbv beta in Hne. unfold pooled_in in Hne.
       destruct (balive (blocks st b)) eqn:Hba; [|simpl in Hne; lia].
       destruct (is_pooled (btag (blocks st b))) eqn:Hbp; [|simpl in Hne; lia].
       destruct (Nat.eqb_spec (bpool (blocks st b)) p) as [Hbq|]; [|simpl in Hne; lia].
       destruct (btag (blocks st b)) as [q|] eqn:Et; [|discriminate].
       pose proof (h_ok_spec st h grow HH b q Hb Hba Hbq Et) as E.
-      destruct (i_blk _ I b Hb Hba) as [_ Hq]. rewrite Et in Hq. destruct Hq as [Hq _].
+      destruct (i_blk _ _ I b Hb Hba) as [_ Hq]. rewrite Et in Hq. destruct Hq as [Hq _].
       rewrite Hbq in Hq. fold P in Hq. fold vt in E. rewrite <- Hq, <- E, params_eqb_refl in Eeq. discriminate.
 Qed.
 
-Lemma step_dealloc st h b n shrink : inv st -> proto_ok st (OpDealloc h b n shrink) = true ->
-  step_good st (OpDealloc h b n shrink).
+(* THE DANGER: the block is a single-object block that had to be taken from raw memory, and the pool NOW has the
+   parameters of its value type *)
+Definition raw_single_in_matching_pool (st : state) (h b : nat) (n : Z) : Prop :=
+  is_pooled (btag (blocks st b)) = false /\ n = 1%Z /\
+  params_eqb (get_params (hvt (handles st h))) (pparams (pools st (hpool (handles st h)))) = true.
+
+Lemma step_dealloc {sk} st h b n shrink : inv_gen sk st -> proto_ok st (OpDealloc h b n shrink) = true ->
+  (sk = false -> ~ raw_single_in_matching_pool st h b n) ->
+  step_good_k sk st (OpDealloc h b n shrink).
 Proof.
-  intros I Hp. simpl in Hp. repeat rewrite andb_true_iff in Hp.
+  intros I Hp Hsafe. unfold raw_single_in_matching_pool in Hsafe. simpl in Hp. repeat rewrite andb_true_iff in Hp.
   destruct Hp as [[[[[Hok Hb] Hba] Hbp] Hbv] Hbn].
   apply handle_ok_spec in Hok as [Hh Ha]. apply Nat.ltb_lt in Hb. apply Nat.eqb_eq in Hbp.
   apply vt_eqb_eq in Hbv. apply Z.eqb_eq in Hbn.
   destruct (handle_pool_alive st h I Hh Ha) as [Hlt [Hr Hal]].
-  destruct (i_blk _ I b Hb Hba) as [_ Htag].
+  destruct (i_blk _ _ I b Hb Hba) as [_ Htag].
   unfold step_good, PoolAlloc.step. cbv zeta. rewrite Hba.
   set (p := hpool (handles st h)) in *. set (vt := hvt (handles st h)) in *. set (P := pools st p) in *.
   set (B := blocks st b) in *.
@@ -501,7 +514,7 @@ Proof.
     assert (T : ((n =? 1)%Z && params_eqb (get_params vt) (pparams P)) = true).
     { rewrite <- Hbn, Hq3, <- Hq2, Hq1, params_eqb_refl. reflexivity. }
     rewrite T. clear T.
-    pose proof (i_cnt _ I p Hlt) as C. fold P in C.
+    pose proof (i_cnt _ _ I p Hlt) as C. fold P in C.
     pose proof (sumn_ge (nblocks st) (fun k => pooled_in p (blocks st k)) b Hb) as G. cbv beta in G.
     fold B in G. rewrite (pooled_in_1 p B Hba) in G by (try rewrite Et; auto).
     destruct (pcount P) as [|c] eqn:Ecn; [lia|].
@@ -510,7 +523,7 @@ Proof.
     eexists _, _. split; [reflexivity|]. split; [|split].
     + constructor; unfold set_cached, set_block, set_pool; proj.
       * intros k Hk Hka. destruct (Nat.eq_dec k b) as [->|Hne]; [rewrite updn_same in Hka; discriminate|].
-        rewrite updn_other in * by lia. apply (blk_inv_frame st); [apply (i_blk _ I k Hk Hka) | proj; lia |].
+        rewrite updn_other in * by lia. apply (blk_inv_frame st); [apply (i_blk _ _ I k Hk Hka) | proj; lia |].
         proj. unfold updn. destruct (Nat.eqb_spec (bpool (blocks st k)) p) as [->|]; reflexivity.
       * intros r Hrq.
         pose proof (sumn_set (pooled_in r) (blocks st) (nblocks st) b (mkBlock false (bpool B) (bvt B) (bn B) (Pooled q)) Hb) as E.
@@ -520,10 +533,10 @@ Proof.
         { unfold pooled_in. rewrite Hba, Et, Hbp. reflexivity. }
         rewrite E0, E1 in E. unfold updn at 1. destruct (Nat.eqb_spec r p) as [->|Hne]; proj.
         -- rewrite Nat.eqb_refl in E. lia.
-        -- destruct (Nat.eqb_spec p r); [lia|]. rewrite (i_cnt _ I r Hrq). lia.
-      * intros r Hrq. unfold updn. destruct (Nat.eqb_spec r p) as [->|]; proj; apply (i_refs _ I); auto.
-      * intros r Hrq. unfold updn. destruct (Nat.eqb_spec r p) as [->|]; proj; apply (i_alive _ I); auto.
-      * apply (i_hnd _ I).
+        -- destruct (Nat.eqb_spec p r); [lia|]. rewrite (i_cnt _ _ I r Hrq). lia.
+      * intros r Hrq. unfold updn. destruct (Nat.eqb_spec r p) as [->|]; proj; apply (i_refs _ _ I); auto.
+      * intros r Hrq. unfold updn. destruct (Nat.eqb_spec r p) as [->|]; proj; apply (i_alive _ _ I); auto.
+      * apply (i_hnd _ _ I).
     + unfold routed_ok; proj. simpl. rewrite Hq1. apply params_eqb_refl.
     + unfold balanced; proj. rewrite out_set_cached.
       pose proof (out_set_block (set_pool st p (mkPool (pparams P) c (prefs P) (pheld P - fr) (palive P)))
@@ -534,40 +547,44 @@ Proof.
       unfold pool_out in E2; proj. fold P in E2. rewrite Hal in E1, E2 |- *. lia.
   - (* a raw block *)
     destruct Htag as [Hs Hn1]. rewrite Hbn in Hn1.
-    destruct (Z.eqb_spec n 1) as [|_]; [contradiction|]. simpl.
+    assert (T : ((n =? 1)%Z && params_eqb (get_params vt) (pparams P)) = false).
+    { destruct (Z.eqb_spec n 1) as [E1|]; [|reflexivity]. cbn [andb].
+      destruct (params_eqb (get_params vt) (pparams P)) eqn:Eq; [|reflexivity].
+      exfalso. destruct sk; [apply (Hn1 eq_refl E1)|]. apply (Hsafe eq_refl). repeat split; auto. }
+    rewrite T. clear T.
     eexists _, _. split; [reflexivity|]. split; [|split].
     + constructor; unfold set_block; proj.
       * intros k Hk Hka. destruct (Nat.eq_dec k b) as [->|Hne]; [rewrite updn_same in Hka; discriminate|].
-        rewrite updn_other in * by lia. apply (blk_inv_frame st); [apply (i_blk _ I k Hk Hka) | proj; lia | reflexivity].
+        rewrite updn_other in * by lia. apply (blk_inv_frame st); [apply (i_blk _ _ I k Hk Hka) | proj; lia | reflexivity].
       * intros r Hrq.
         pose proof (sumn_set (pooled_in r) (blocks st) (nblocks st) b (mkBlock false (bpool B) (bvt B) (bn B) (RawMem s)) Hb) as E.
         fold B in E.
         assert (E0 : pooled_in r (mkBlock false (bpool B) (bvt B) (bn B) (RawMem s)) = 0) by reflexivity.
         assert (E1 : pooled_in r B = 0).
         { unfold pooled_in. rewrite Hba, Et. reflexivity. }
-        rewrite E0, E1 in E. rewrite (i_cnt _ I r Hrq). lia.
-      * apply (i_refs _ I).
-      * apply (i_alive _ I).
-      * apply (i_hnd _ I).
+        rewrite E0, E1 in E. rewrite (i_cnt _ _ I r Hrq). lia.
+      * apply (i_refs _ _ I).
+      * apply (i_alive _ _ I).
+      * apply (i_hnd _ _ I).
     + unfold routed_ok; proj. simpl. rewrite Hs, Hbn, Hbv. apply Z.eqb_refl.
     + unfold balanced; proj.
       pose proof (out_set_block st b (mkBlock false (bpool B) (bvt B) (bn B) (RawMem s)) Hb) as E1.
       fold B in E1. unfold raw_out in E1; proj. rewrite Hba, Et in E1. simpl in E1. lia.
 Qed.
 
-Lemma step_move st h : inv st -> proto_ok st (OpMove h) = true -> step_good st (OpMove h).
+Lemma step_move {sk} st h : inv_gen sk st -> proto_ok st (OpMove h) = true -> step_good_k sk st (OpMove h).
 Proof. intros I Hp. exact (step_copy st h I Hp). Qed.
 
 (* allocate() in which the base allocator throws *)
-Lemma step_allocfail st h n grow : inv st -> proto_ok st (OpAllocFail h n grow) = true ->
-  step_good st (OpAllocFail h n grow).
+Lemma step_allocfail {sk} st h n grow : inv_gen sk st -> proto_ok st (OpAllocFail h n grow) = true ->
+  step_good_k sk st (OpAllocFail h n grow).
 Proof.
   intros I Hp. simpl in Hp. repeat rewrite andb_true_iff in Hp. destruct Hp as [[Hok Hn] Hcan].
   apply handle_ok_spec in Hok as [Hh Ha].
   destruct (handle_pool_alive st h I Hh Ha) as [Hlt [Hr Hal]].
   unfold step_good, PoolAlloc.step. cbv zeta.
   set (p := hpool (handles st h)) in *. set (vt := hvt (handles st h)) in *. set (P := pools st p) in *.
-  assert (Hnothing : exists st' ob, Ok (st, mkObs None None p 0 0 false) = Ok (st', ob) /\ inv st' /\
+  assert (Hnothing : exists st' ob, Ok (st, mkObs None None p 0 0 false) = Ok (st', ob) /\ inv_gen sk st' /\
             routed_ok ob = true /\ balanced st st' ob).
   { eexists _, _. split; [reflexivity|]. split; [exact I|]. split; [reflexivity|]. unfold balanced; proj. lia. }
   destruct (Z.eqb_spec n 1) as [->|Hn1]; [|exact Hnothing].
@@ -575,39 +592,40 @@ Proof.
   - destruct (from_cache st p) eqn:Efc; [simpl in Hcan; discriminate|].
     eexists _, _. split; [reflexivity|]. split; [|split; [reflexivity|]].
     + constructor; unfold set_pool; proj.
-      * intros b Hb Hba. apply (blk_inv_frame st); [apply (i_blk _ I b Hb Hba) | proj; lia |].
+      * intros b Hb Hba. apply (blk_inv_frame st); [apply (i_blk _ _ I b Hb Hba) | proj; lia |].
         proj. unfold updn. destruct (Nat.eqb_spec (bpool (blocks st b)) p) as [->|]; reflexivity.
-      * intros q Hq. unfold updn. destruct (Nat.eqb_spec q p) as [->|]; proj; apply (i_cnt _ I); auto.
-      * intros q Hq. unfold updn. destruct (Nat.eqb_spec q p) as [->|]; proj; apply (i_refs _ I); auto.
-      * intros q Hq. unfold updn. destruct (Nat.eqb_spec q p) as [->|]; proj; apply (i_alive _ I); auto.
-      * apply (i_hnd _ I).
+      * intros q Hq. unfold updn. destruct (Nat.eqb_spec q p) as [->|]; proj; apply (i_cnt _ _ I); auto.
+      * intros q Hq. unfold updn. destruct (Nat.eqb_spec q p) as [->|]; proj; apply (i_refs _ _ I); auto.
+      * intros q Hq. unfold updn. destruct (Nat.eqb_spec q p) as [->|]; proj; apply (i_alive _ _ I); auto.
+      * apply (i_hnd _ _ I).
     + unfold balanced; proj.
       pose proof (out_set_pool st p (mkPool (pparams P) (pcount P) (prefs P) (pheld P + grow) (palive P)) Hlt) as E.
       unfold pool_out in E; proj. fold P in E. rewrite Hal in E |- *. lia.
   - destruct (Nat.eqb_spec (pcount P) 0) as [Ec|Ec]; [|exact Hnothing].
     assert (Hnone : forall b, b < nblocks st -> balive (blocks st b) = true ->
               is_pooled (btag (blocks st b)) = true -> bpool (blocks st b) <> p).
-    { intros b Hb Hba Hbp Hbq. pose proof (i_cnt _ I p Hlt) as C. fold P in C. rewrite Ec in C.
+    { intros b Hb Hba Hbp Hbq. pose proof (i_cnt _ _ I p Hlt) as C. fold P in C. rewrite Ec in C.
       symmetry in C. pose proof (sumn_zero _ _ C b Hb) as Z0. cbv beta in Z0.
       rewrite (pooled_in_1 p _ Hba Hbp Hbq) in Z0. discriminate. }
     eexists _, _. split; [reflexivity|]. split; [|split; [reflexivity|]].
     + constructor; unfold set_cached, set_pool; proj.
-      * intros b Hb Hba. apply (blk_inv_frame' st); [apply (i_blk _ I b Hb Hba) | proj; lia |].
+      * intros b Hb Hba. apply (blk_inv_frame' st); [apply (i_blk _ _ I b Hb Hba) | proj; lia |].
         intros Hbp. proj. rewrite updn_other; [reflexivity | apply (Hnone b Hb Hba Hbp)].
-      * intros q Hq. unfold updn. destruct (Nat.eqb_spec q p) as [->|]; proj; [|apply (i_cnt _ I); auto].
-        pose proof (i_cnt _ I p Hlt) as C. fold P in C. lia.
-      * intros q Hq. unfold updn. destruct (Nat.eqb_spec q p) as [->|]; proj; apply (i_refs _ I); auto.
-      * intros q Hq. unfold updn. destruct (Nat.eqb_spec q p) as [->|]; proj; apply (i_alive _ I); auto.
-      * apply (i_hnd _ I).
+      * intros q Hq. unfold updn. destruct (Nat.eqb_spec q p) as [->|]; proj; [|apply (i_cnt _ _ I); auto].
+        pose proof (i_cnt _ _ I p Hlt) as C. fold P in C. lia.
+      * intros q Hq. unfold updn. destruct (Nat.eqb_spec q p) as [->|]; proj; apply (i_refs _ _ I); auto.
+      * intros q Hq. unfold updn. destruct (Nat.eqb_spec q p) as [->|]; proj; apply (i_alive _ _ I); auto.
+      * apply (i_hnd _ _ I).
     + unfold balanced; proj. rewrite out_set_cached.
       pose proof (out_set_pool st p (mkPool (get_params vt) 0 (prefs P) grow (palive P)) Hlt) as E.
       unfold pool_out in E; proj. fold P in E. rewrite Hal in E |- *. lia.
 Qed.
 
 (* ------------------------------------------------------------------ all histories *)
-Lemma step_good_all st o : inv st -> proto_ok st o = true -> h_ok st o = true -> step_good st o.
+Lemma step_good_all {sk} st o : inv_gen sk st -> proto_ok st o = true -> (sk = true -> h_ok st o = true) ->
+  (sk = false -> forall h b n s, o = OpDealloc h b n s -> ~ raw_single_in_matching_pool st h b n) -> step_good_k sk st o.
 Proof.
-  intros I Hp HH. destruct o.
+  intros I Hp HH HS. destruct o.
   - apply step_new; auto.
   - apply step_copy; auto.
   - apply step_move; auto.
@@ -616,7 +634,7 @@ Proof.
   - apply step_assign; auto.
   - apply step_destroy; auto.
   - apply step_alloc; auto.
-  - apply step_dealloc; auto.
+  - apply step_dealloc; auto. intros E. exact (HS E h b n shrink eq_refl).
   - apply step_allocfail; auto.
   - eexists _, _. split; [reflexivity|]. split; [exact I|]. split; [reflexivity|]. unfold balanced; proj; lia.
   - eexists _, _. split; [reflexivity|]. split; [exact I|]. split; [reflexivity|]. unfold balanced; proj; lia.
@@ -633,7 +651,7 @@ Proof.
   revert st. induction ops as [|o r IH]; intros st I G.
   - exists st, []. simpl. split; [reflexivity|]. split; [exact I|]. split; [constructor | lia].
   - simpl in G. repeat rewrite andb_true_iff in G. destruct G as [[Hp HH] Hr]. simpl in HH.
-    destruct (step_good_all st o I Hp HH) as [st1 [ob [Es [I1 [R1 B1]]]]].
+    destruct (step_good_all st o I Hp (fun _ => HH) (fun E => ltac:(discriminate E))) as [st1 [ob [Es [I1 [R1 B1]]]]].
     rewrite Es in Hr. destruct (IH st1 I1 Hr) as [st2 [obs [Er [I2 [R2 B2]]]]].
     exists st2, (ob :: obs). simpl. rewrite Es, Er. split; [reflexivity|]. split; [exact I2|].
     split; [constructor; assumption|]. unfold balanced in B1. lia.
@@ -660,12 +678,12 @@ Theorem count_is_live_pooled_blocks : forall ops st' obs, good true init ops = t
       btag (blocks st' b) = Pooled (pparams (pools st' p)).
 Proof.
   intros ops st' obs G E p Hp. destruct (run_good init ops inv_init G) as [st2 [obs2 [E2 [I _]]]].
-  rewrite E in E2. inversion E2; subst st2 obs2. split; [apply (i_cnt _ I p Hp)|].
+  rewrite E in E2. inversion E2; subst st2 obs2. split; [apply (i_cnt _ _ I p Hp)|].
   intros b Hb H1. unfold pooled_in in H1.
   destruct (balive (blocks st' b)) eqn:Ea; [|discriminate].
   destruct (is_pooled (btag (blocks st' b))) eqn:Ep; [|discriminate].
   destruct (Nat.eqb_spec (bpool (blocks st' b)) p) as [Eq|]; [|discriminate].
-  destruct (i_blk _ I b Hb Ea) as [_ Ht]. destruct (btag (blocks st' b)); [|discriminate].
+  destruct (i_blk _ _ I b Hb Ea) as [_ Ht]. destruct (btag (blocks st' b)); [|discriminate].
   destruct Ht as [-> _]. rewrite Eq. reflexivity.
 Qed.
 
@@ -688,11 +706,11 @@ Proof.
      (forall h, h < nhandles st' -> halive (handles st' h) = true -> hpool (handles st' h) <> p) ->
      palive (pools st' p) = false /\ pool_out (pools st' p) = 0).
   { intros p Hp Hno. assert (prefs (pools st' p) = 0) as R0.
-    { rewrite (i_refs _ I p Hp). apply sumn_all_zero. intros h Hh. unfold owns.
+    { rewrite (i_refs _ _ I p Hp). apply sumn_all_zero. intros h Hh. unfold owns.
       destruct (halive (handles st' h)) eqn:Ea; [|reflexivity].
       destruct (Nat.eqb_spec (hpool (handles st' h)) p) as [Eq|]; [|reflexivity].
       exfalso. apply (Hno h Hh Ea Eq). }
-    pose proof (i_alive _ I p Hp) as A. rewrite R0 in A. simpl in A. split; [exact A|].
+    pose proof (i_alive _ _ I p Hp) as A. rewrite R0 in A. simpl in A. split; [exact A|].
     unfold pool_out. rewrite A. reflexivity. }
   split; [lia|]. split; [exact Hgone|].
   intros Hh Hb. assert (outstanding st' = 0) as O0.
@@ -827,7 +845,7 @@ Proof.
   intros st h I Hok. eexists _, _. split; [reflexivity|]. split; [apply fresh_pool_inv; exact I|].
   unfold push_handle, push_pool; proj. repeat (rewrite updn_same; proj).
   split; [reflexivity|]. split; [reflexivity|]. split; [reflexivity|]. split.
-  - intros k Hk Ha. rewrite updn_other by lia. pose proof (i_hnd _ I k Hk Ha). lia.
+  - intros k Hk Ha. rewrite updn_other by lia. pose proof (i_hnd _ _ I k Hk Ha). lia.
   - split; [reflexivity|]. split; [intros p Hp; rewrite updn_other by lia; reflexivity|]. split.
     + intros ops st2 obs E A. apply (run_frame ops _ st2 obs _ E); [proj; lia | exact A].
     + intros ops st2 obs p Hp E A. apply (run_frame ops _ st2 obs _ E); [proj; lia | exact A].
@@ -877,7 +895,7 @@ Lemma two_owners st h k : inv st -> h <> k -> handle_ok st h = true -> handle_ok
   hpool (handles st h) = hpool (handles st k) -> 2 <= prefs (pools st (hpool (handles st h))).
 Proof.
   intros I Hne Hh Hk Hp. apply handle_ok_spec in Hh as [Hh Ha]. apply handle_ok_spec in Hk as [Hk Hka].
-  pose proof (i_hnd _ I h Hh Ha) as Hlt. rewrite (i_refs _ I _ Hlt).
+  pose proof (i_hnd _ _ I h Hh Ha) as Hlt. rewrite (i_refs _ _ I _ Hlt).
   pose proof (sumn_ge2 (nhandles st) (fun x => owns (hpool (handles st h)) (handles st x)) h k Hne Hh Hk) as G.
   cbv beta in G. unfold owns at 1 2 in G. rewrite Ha, Hka, <- Hp, Nat.eqb_refl in G. simpl in G. exact G.
 Qed.
@@ -1485,7 +1503,7 @@ Proof.
   - intros vt st1 ob E. simpl in E. inversion E; subst. apply Hshare.
   - intros st1 ob I Hok E. simpl in E. inversion E; subst. unfold alloc_eq, push_handle, push_pool; proj. rewrite updn_same; proj.
     apply handle_ok_spec in Hok as [Hlt Ha]. rewrite updn_other by lia.
-    pose proof (i_hnd _ I h Hlt Ha). apply Nat.eqb_neq. lia.
+    pose proof (i_hnd _ _ I h Hlt Ha). apply Nat.eqb_neq. lia.
 Qed.
 
 (* frame: construct / destroy / == / != / get_base_allocator leave the whole allocator state untouched *)
@@ -1664,8 +1682,8 @@ Theorem pool_alive_iff_owned : forall ops st' obs, good true init ops = true -> 
     prefs (pools st' p) = sumn (nhandles st') (fun h => owns p (handles st' h)).
 Proof.
   intros ops st' obs G E p Hp. destruct (run_good init ops inv_init G) as [st2 [obs2 [E2 [I _]]]].
-  rewrite E in E2. inversion E2; subst st2 obs2. split; [|apply (i_refs _ I p Hp)].
-  rewrite (i_alive _ I p Hp), (i_refs _ I p Hp). split.
+  rewrite E in E2. inversion E2; subst st2 obs2. split; [|apply (i_refs _ _ I p Hp)].
+  rewrite (i_alive _ _ I p Hp), (i_refs _ _ I p Hp). split.
   - intros Ha. destruct (Nat.eqb_spec (sumn (nhandles st') (fun h => owns p (handles st' h))) 0) as [|Hne]; [discriminate|].
     destruct (sumn_pos_ex _ _ Hne) as [h [Hh Ho]]. cbv beta in Ho. unfold owns in Ho.
     destruct (halive (handles st' h)) eqn:Eh; [|simpl in Ho; lia].
@@ -1687,15 +1705,9 @@ Definition well_tagged (st : state) (B : block) : Prop :=
 
 Lemma inv_well_tagged st b : inv st -> b < nblocks st -> balive (blocks st b) = true -> well_tagged st (blocks st b).
 Proof.
-  intros I Hb Ha. destruct (i_blk _ I b Hb Ha) as [_ Ht]. unfold well_tagged.
+  intros I Hb Ha. destruct (i_blk _ _ I b Hb Ha) as [_ Ht]. unfold well_tagged.
   destruct (btag (blocks st b)); [exact Ht | apply Ht].
 Qed.
-
-(* THE DANGER: the block is a single-object block that had to be taken from raw memory, and the pool NOW has the
-   parameters of its value type *)
-Definition raw_single_in_matching_pool (st : state) (h b : nat) (n : Z) : Prop :=
-  is_pooled (btag (blocks st b)) = false /\ n = 1%Z /\
-  params_eqb (get_params (hvt (handles st h))) (pparams (pools st (hpool (handles st h)))) = true.
 
 (* where the decision (= the GENERATED deallocate, C20_generated_deallocate_is_model_decision) sends a block *)
 Definition decided_tag (st : state) (h : nat) (n : Z) : tag :=
@@ -1734,8 +1746,8 @@ Theorem H_excludes_the_danger st h b n s : inv st -> proto_ok st (OpDealloc h b 
   ~ raw_single_in_matching_pool st h b n.
 Proof.
   intros I P [Hr [Hn _]]. simpl in P. repeat rewrite andb_true_iff in P. destruct P as [[[[[_ Hb] Ha] _] _] Hbn].
-  apply Nat.ltb_lt in Hb. apply Z.eqb_eq in Hbn. destruct (i_blk _ I b Hb Ha) as [_ Ht].
-  destruct (btag (blocks st b)); [discriminate|]. destruct Ht as [_ Hne]. congruence.
+  apply Nat.ltb_lt in Hb. apply Z.eqb_eq in Hbn. destruct (i_blk _ _ I b Hb Ha) as [_ Ht].
+  destruct (btag (blocks st b)); [discriminate|]. destruct Ht as [_ Hne]. apply (Hne eq_refl). congruence.
 Qed.
 
 (* how a raw single-object block comes into existence: exactly when a single-object request meets a BUSY pool of other
@@ -1752,7 +1764,84 @@ Proof.
     + split; [intros Q; inversion Q; auto | intros [_ [_ ->]]; reflexivity].
 Qed.
 
+(* ------------------------------------------------------------------ round 9: the boundary over whole histories *)
+Definition no_danger (st : state) (o : op) : Prop :=
+  forall h b n s, o = OpDealloc h b n s -> ~ raw_single_in_matching_pool st h b n.
+
+Lemma inv_gen_well_tagged {sk} st b : inv_gen sk st -> b < nblocks st -> balive (blocks st b) = true -> well_tagged st (blocks st b).
+Proof.
+  intros I Hb Ha. destruct (i_blk _ _ I b Hb Ha) as [_ Ht]. unfold well_tagged.
+  destruct (btag (blocks st b)); [exact Ht | apply Ht].
+Qed.
+
+Lemma step_dealloc_obs st h b n s st' ob : step st (OpDealloc h b n s) = Ok (st', ob) ->
+  o_origin ob = (if balive (blocks st b) then Some (btag (blocks st b)) else None) /\ o_dest ob = Some (decided_tag st h n).
+Proof.
+  intros E. unfold PoolAlloc.step in E. cbv zeta in E. unfold decided_tag, dealloc_decision.
+  destruct ((n =? 1)%Z && params_eqb (get_params (hvt (handles st h))) (pparams (pools st (hpool (handles st h))))).
+  - destruct (pcount (pools st (hpool (handles st h)))); [discriminate|]. inversion E; subst; proj. split; reflexivity.
+  - inversion E; subst; proj. split; reflexivity.
+Qed.
+
+(* the WEAK invariant (no H) survives every history that respects the protocol and never performs the dangerous
+   deallocation: such a history never gets stuck, routes every deallocation to its origin and keeps the base allocator balanced *)
+Lemma run_no_danger : forall ops st, inv_gen false st -> respects protocol st ops -> respects no_danger st ops ->
+  exists st' obs, run st ops = Ok (st', obs) /\ inv_gen false st' /\ Forall (fun o => routed_ok o = true) obs /\
+    outstanding st' + sum_frees obs = outstanding st + sum_allocs obs.
+Proof.
+  induction ops as [|o r IH]; intros st I P S.
+  - exists st, []. simpl. split; [reflexivity|]. split; [exact I|]. split; [constructor | lia].
+  - simpl in P, S. destruct P as [P0 P1], S as [S0 S1].
+    destruct (step_good_all st o I P0 (fun E => ltac:(discriminate E)) (fun _ => S0)) as [st1 [ob [Es [I1 [R1 B1]]]]].
+    rewrite Es in P1, S1. destruct (IH st1 I1 P1 S1) as [st2 [obs [Er [I2 [R2 B2]]]]].
+    exists st2, (ob :: obs). simpl. rewrite Es, Er. split; [reflexivity|]. split; [exact I2|].
+    split; [constructor; assumption|]. unfold balanced in B1. lia.
+Qed.
+
+(* conversely: a protocol-respecting history that ran to the end with every deallocation routed to its origin never
+   performed the dangerous deallocation *)
+Lemma run_routed_no_danger : forall ops st st' obs, inv_gen false st -> respects protocol st ops ->
+  run st ops = Ok (st', obs) -> Forall (fun o => routed_ok o = true) obs -> respects no_danger st ops.
+Proof.
+  induction ops as [|o r IH]; intros st st' obs I P E R; [exact Logic.I|].
+  simpl in P, E |- *. destruct P as [P0 P1].
+  destruct (step st o) as [[st1 ob]| | |] eqn:Es; try discriminate.
+  destruct (run st1 r) as [[st2 obs2]| | |] eqn:Er; try discriminate. inversion E; subst st2 obs.
+  inversion R as [|? ? R0 R1]; subst.
+  assert (S0 : no_danger st o).
+  { intros h b n s -> D. pose proof P0 as P0'. unfold protocol in P0'. simpl in P0'. repeat rewrite andb_true_iff in P0'.
+    destruct P0' as [[[[[_ Hb] Ha] _] _] _]. apply Nat.ltb_lt in Hb.
+    pose proof (inv_gen_well_tagged st b I Hb Ha) as W.
+    destruct (misroute_exact_boundary st h b n s P0 W) as [M _].
+    destruct (step_dealloc_obs st h b n s st1 ob Es) as [Oo Od].
+    unfold routed_ok in R0. rewrite Oo, Od, Ha in R0. apply (M R0 D). }
+  split; [exact S0|].
+  destruct (step_good_all st o I P0 (fun E0 => ltac:(discriminate E0)) (fun _ => S0)) as [st1' [ob' [Es' [I1 _]]]].
+  rewrite Es in Es'. inversion Es'; subst st1' ob'. apply (IH st1 st' obs2 I1 P1 Er R1).
+Qed.
+
+(* THE KNOWN FINDING'S EXACT BOUNDARY OVER WHOLE HISTORIES: a protocol-respecting history (from the initial state, no hypothesis
+   H) runs to the end with every deallocation returned to its origin IF AND ONLY IF it contains no deallocation of a raw
+   single-object block meeting a pool that now has its value type's parameters.  (Otherwise a block is misrouted, or - when the
+   pool's allocate count is already 0 - MOMO_ASSERT(allocCount > 0) fires.) *)
+Theorem history_misroutes_iff : forall ops, respects protocol init ops ->
+  ((exists st' obs, run init ops = Ok (st', obs) /\ Forall (fun o => routed_ok o = true) obs) <-> respects no_danger init ops).
+Proof.
+  intros ops P. split.
+  - intros [st' [obs [E R]]]. apply (run_routed_no_danger ops init st' obs inv_init P E R).
+  - intros S. destruct (run_no_danger ops init inv_init P S) as [st' [obs [E [_ [R _]]]]]. exists st', obs. auto.
+Qed.
+
+Lemma step_good_H st o : inv st -> proto_ok st o = true -> h_ok st o = true ->
+  exists st' ob, step st o = Ok (st', ob) /\ inv st' /\ routed_ok ob = true /\
+    outstanding st' + o_frees ob = outstanding st + o_allocs ob.
+Proof. intros I P H. exact (step_good_all st o I P (fun _ => H) (fun E => ltac:(discriminate E))). Qed.
+
 End Proofs.
+
+(* the invariant under H, and the weak invariant without H *)
+Notation inv cfg := (inv_gen cfg true).
+Notation winv cfg := (inv_gen cfg false).
 
 (* ------------------------------------------------------------------ round 7: the buffer step of a pooled allocate *)
 (* MemPool::pvNewBlock (MemPool.h:516-535), GENERATED with the buffer allocation as a step that may throw
@@ -1922,6 +2011,6 @@ Qed.
 (* one block per buffer (blockCount = 1): the block size is the object size itself *)
 Lemma pool_block_single cfg vt : block_count cfg = 1 -> 0 < vsize vt -> get_params cfg vt = (vsize vt, valign vt).
 Proof.
-  intros E Hs. unfold get_params, Gen_MemPoolConst.CorrectBlockSize. rewrite E. simpl.
+  intros E Hs. unfold get_params, Gen_MemPoolConst.CorrectBlockSize. rewrite E. change (1 =? 1)%Z with true. cbv iota.
   destruct (Z.gtb_spec (vsize vt) 0); [reflexivity | lia].
 Qed.
